@@ -285,6 +285,14 @@ def translate_measures(repo, gen, write):
         t = MeasFn(os.path.join(repo, rel), rel)
         body = t.function("confusion_matrix", ["labels", "preds"]) + t.function("opf_accuracy", ["labels", "preds"]) + \
             t.function("opf_accuracy_per_label", ["labels", "preds"]) + t.function("purity", ["labels", "preds"])
+        # `normalize`: three vectorised float statements; emitted as text (the model `normalizeColG` mirrors them column by column)
+        fn = [n for n in t.tree.body if isinstance(n, ast.FunctionDef) and n.name == "normalize"]
+        if not fn:
+            raise Untranslatable(f"{rel}: function normalize not found")
+        stmts = [s_ for s_ in fn[0].body if not (isinstance(s_, ast.Expr) and isinstance(s_.value, ast.Constant))]
+        txt = "\n".join(ast.unparse(s_) for s_ in stmts)
+        body += [f"/-- `normalize` ({rel}:{fn[0].lineno}), as written -/",
+                 "def normalize_body : String := " + '"' + txt.replace("\\", "\\\\").replace('"', '\\"').replace("\n", "\\n") + '"', ""]
         err = None
     except Untranslatable as ex:
         body = ['theorem untranslatable : False := by', '  exact (show False from nomatch (⟨⟩ : Unit))  -- ' + str(ex)]
